@@ -6,8 +6,7 @@ C07 driver: one case per line → one canonical answer per line.  Answers come f
 *algorithm model*; the specification (bounds under the column's intended order) is
 evaluated next to it and `MODEL-SPEC-MISMATCH` is printed when the model's statistics do
 not satisfy it (the theorems say this cannot happen for the comparison itself; it does
-happen where BYTE_ARRAY decimal bounds are byte-truncated and where the boundary order is
-declared on truncated column-index lists — known findings).
+happen where the boundary order is declared on truncated column-index lists — known finding).
 -/
 namespace ArrowModel.C07
 open ArrowModel.Proto
@@ -50,15 +49,22 @@ def kindOps (k : String) : Option KindOps :=
   else if k = "bool" then
     some (prim (fun a b => decide (bytesToNat a > bytesToNat b)) noNan (fun a b => decide (bytesToNat a ≤ bytesToNat b)))
   else if k = "decba" then
-    some { gt := compareGreaterByteArrayDecimals, nan := noNan, truncStats := false, truncIndex := false, utf8 := false,
+    some { gt := compareGreaterByteArrayDecimals, nan := noNan, truncStats := canTruncateValue 1 true false,
+           truncIndex := canTruncateValue 1 true false, utf8 := false,
            specLe := fun a b => decide (decimalValue a ≤ decimalValue b) }
   else if k.startsWith "decflba" then
-    some { gt := compareGreaterByteArrayDecimals, nan := noNan, truncStats := false, truncIndex := false, utf8 := false,
+    some { gt := compareGreaterByteArrayDecimals, nan := noNan, truncStats := canTruncateValue 2 true false,
+           truncIndex := canTruncateValue 2 true false, utf8 := false,
            specLe := fun a b => decide (decimalValue a ≤ decimalValue b) }
   else if k = "utf8" then
-    some { gt := sliceGt, nan := noNan, truncStats := true, truncIndex := true, utf8 := true, specLe := lexLe }
-  else if k = "bin" ∨ k.startsWith "flba" then
-    some { gt := sliceGt, nan := noNan, truncStats := true, truncIndex := true, utf8 := false, specLe := lexLe }
+    some { gt := sliceGt, nan := noNan, truncStats := canTruncateValue 1 false false,
+           truncIndex := canTruncateValue 1 false false, utf8 := true, specLe := lexLe }
+  else if k = "bin" then
+    some { gt := sliceGt, nan := noNan, truncStats := canTruncateValue 1 false false,
+           truncIndex := canTruncateValue 1 false false, utf8 := false, specLe := lexLe }
+  else if k.startsWith "flba" then
+    some { gt := sliceGt, nan := noNan, truncStats := canTruncateValue 2 false false,
+           truncIndex := canTruncateValue 2 false false, utf8 := false, specLe := lexLe }
   else none
 
 /-- one value: `e` = empty byte string, otherwise hex -/
